@@ -24,6 +24,7 @@ type Clause struct {
 type LoopSpec struct {
 	Invariants []*Clause
 	Decreases  *Clause
+	Entry      []*Clause // conditions that hold when the loop is first reached (not assumed for later iterations)
 	Monotone   []*Clause // boolean expressions that, once true at the loop head, stay true at every later visit
 	Steps      []*Clause // two-state conditions on one iteration: prev(e) is e at the loop head
 }
@@ -46,9 +47,11 @@ type Contract struct {
 	Ensures  []*Clause
 	Checks   []*Clause // postconditions proved on the body but not exported to callers (may mention lastret/visits/ncalls)
 	Exsures  []*Clause
+	Assumes  []*Clause // postconditions assumed at call sites but not proved on the body (reported as assumptions)
 	Modifies []*ModEntry
 	Loops    map[int]*LoopSpec
 	NoPanic  bool // never exits by panic
+	AnyPanic bool // may panic with a value that is not an error
 	NoReturn bool // always exits by error-panic
 	Trusted  bool // body not verified
 	Inline   bool
@@ -112,6 +115,7 @@ type FrameRule struct {
 }
 
 type Specs struct {
+	Immutable map[string]bool // package variables written only by init
 	Contracts map[string]*Contract
 	Preds     map[string]*PredDef
 	UFuncs    map[string]*UFunc
@@ -361,6 +365,7 @@ func (sp *Specs) resolveRefines() error {
 		c.Requires = append(append([]*Clause{}, base.Requires...), c.Requires...)
 		c.Ensures = append(append([]*Clause{}, base.Ensures...), c.Ensures...)
 		c.Exsures = append(append([]*Clause{}, base.Exsures...), c.Exsures...)
+		c.AnyPanic = c.AnyPanic || base.AnyPanic
 		if len(c.Modifies) == 0 {
 			c.Modifies = base.Modifies
 		}
@@ -476,6 +481,30 @@ func (sp *Specs) directive(line, where string, cur **Contract) error {
 		g.Lock = e
 		sp.Guards = append(sp.Guards, g)
 		*cur = nil
+	case "immutable":
+		// immutable {props} global NAME: the package variable is written only by package initialisation; the
+		// engine then treats its value as one constant (and generates the scan that justifies it)
+		fr := &FrameRule{Where: where, Kind: "stores-global", Allow: []string{"init", "init#1"}}
+		if m := propsRe.FindStringSubmatch(rest); m != nil {
+			for _, p := range strings.Split(m[1], ",") {
+				fr.Props = append(fr.Props, strings.TrimSpace(p))
+			}
+			rest = rest[len(m[0]):]
+		}
+		hd := strings.Fields(rest)
+		if len(hd) != 2 || hd[0] != "global" {
+			return fmt.Errorf("%s: immutable [{props}] global NAME", where)
+		}
+		fr.Target = hd[1]
+		if !strings.Contains(hd[1], ".") {
+			// (variables of other packages, e.g. ioutil.Discard: no code of this repository can be scanned for them)
+			sp.Frames = append(sp.Frames, fr)
+		}
+		if sp.Immutable == nil {
+			sp.Immutable = map[string]bool{}
+		}
+		sp.Immutable[hd[1]] = true
+		*cur = nil
 	case "frame":
 		// frame stores Type.field only-in f1, f2 ... [props]
 		fr := &FrameRule{Where: where}
@@ -522,7 +551,7 @@ func (sp *Specs) directive(line, where string, cur **Contract) error {
 			for _, p := range strings.Split(rest, ",") {
 				c.Params = append(c.Params, strings.TrimSpace(p))
 			}
-		case "requires", "ensures", "exsures", "decreases", "check":
+		case "requires", "ensures", "exsures", "decreases", "check", "assumes":
 			cl, err := sp.clause(rest, where, c.Props)
 			if err != nil {
 				return err
@@ -536,6 +565,8 @@ func (sp *Specs) directive(line, where string, cur **Contract) error {
 				c.Checks = append(c.Checks, cl)
 			case "exsures":
 				c.Exsures = append(c.Exsures, cl)
+			case "assumes":
+				c.Assumes = append(c.Assumes, cl)
 			case "decreases":
 				c.Decr = cl
 			}
@@ -565,6 +596,8 @@ func (sp *Specs) directive(line, where string, cur **Contract) error {
 				ls.Decreases = cl
 			case "monotone":
 				ls.Monotone = append(ls.Monotone, cl)
+			case "entry":
+				ls.Entry = append(ls.Entry, cl)
 			case "step":
 				ls.Steps = append(ls.Steps, cl)
 			default:
@@ -622,6 +655,10 @@ func (sp *Specs) directive(line, where string, cur **Contract) error {
 			c.Refines = rest
 		case "nopanic":
 			c.NoPanic = true
+		case "anypanic":
+			// may panic with a value of any type (user code, or code that lets user code's panics through);
+			// without it a function only ever panics with a non-runtime error value
+			c.AnyPanic = true
 		case "noreturn":
 			c.NoReturn = true
 		case "trusted":
